@@ -47,6 +47,21 @@ def run(chk):
                 chk.violation("C15.sandbox", call, K.short(call), "a local bound to <path>.resolve()", "the served path is not the resolved, checked path")
                 continue
             ds = norm.fn_defs(rp.node).defs.get(p.id, [])
+            # the directory listing may be given an alias of a path that was checked against the root in the same block (in follow-symlink
+            # mode the normalised, unresolved path: names are listed relative to the root, the target of a symlink may lie outside it)
+            alias = [(d, v) for d, v in ds if isinstance(v, ast.Name)]
+            if alias and len(alias) == len(ds) and "_directory_as_html" in norm.raw(call.func):
+                bad_alias = []
+                for d, v in alias:
+                    blk = PC._block_of(d)
+                    prior = blk[: blk.index(d)] if blk and d in blk else []
+                    if not any(M.contains(x, f"{v.id}.relative_to(self._directory)") for x in prior):
+                        bad_alias.append((d, v))
+                if not bad_alias:
+                    chk.ok("C15.sandbox", call, f"`{K.short(call, 40)}` lists `{p.id}`, in every branch an alias of a path checked against the root just before")
+                else:
+                    chk.violation("C15.sandbox", bad_alias[0][0], K.short(bad_alias[0][0]), f"{bad_alias[0][1].id}.relative_to(self._directory) before the alias", "the listed directory path was not checked against the root")
+                continue
             if ds and all(v is not None and M.match(M.compile_pat("$X.resolve()"), v) is not None for _d, v in ds):
                 chk.ok("C15.sandbox", call, f"`{K.short(call, 40)}` serves `{p.id}`, every definition of which is a .resolve()d path")
             else:
@@ -207,3 +222,47 @@ def run(chk):
             chk.violation("C15.rangelex", fa[0][0], p, f"admits {w!r}", "the Range pattern matches inside a longer value")
     else:
         chk.violation("C15.rangelex", hr, "re.findall(r'^bytes=(\\d*)-(\\d*)$', rng, re.ASCII)", "", "Range parsing is no longer lexically gated")
+    conditional_rules(chk, repo)
+
+
+def conditional_rules(chk, repo):
+    """Rules written after the defect hunt (DESIGN 12, F45-F48)."""
+    po = repo.func(FR, "FileResponse._prepare_open_file")
+    # ---- C15.ifrange: an If-Range that is not a date is an entity-tag and must be compared, not ignored ------------------------------------
+    raw = [n for n in ast.walk(po.node) if isinstance(n, ast.Attribute) and n.attr == "IF_RANGE" and norm.raw(n) == "hdrs.IF_RANGE"]
+    eq = [c for c in ast.walk(po.node) if isinstance(c, ast.Compare) and isinstance(c.ops[0], (ast.Eq, ast.NotEq)) and "etag" in norm.raw(c).lower()]
+    if raw and eq:
+        chk.ok("C15.ifrange", raw[0], "the raw If-Range header is consulted: an entity-tag is compared with the current strong ETag, anything that is not a matching date or tag disables the Range")
+    else:
+        chk.violation("C15.ifrange", po, "request.if_range", "request.headers.get(hdrs.IF_RANGE) compared with the current ETag",
+                      "`request.if_range` is None both when the header is absent and when it carries an entity-tag (or garbage); treating None as `process the Range` answers 206 with a slice of the *new* file to a client that asked `only if unchanged since <old etag>`: it splices new bytes onto its stale prefix")
+    # ---- C15.rangezero: a suffix range of length 0 selects nothing ---------------------------------------------------------------------------
+    hr = repo.func(WR, "BaseRequest.http_range")
+    neg = [a for a in ast.walk(hr.node) if isinstance(a, ast.Assign) and norm.raw(a) in ("start = -end",)]
+    if not neg:
+        chk.analysis_error("C15.rangezero: `start = -end` not found in BaseRequest.http_range")
+    for a in neg:
+        if PC.has_lit(PC.pc(a, raw=True), [("end == 0", False), ("end != 0", True), ("end", True), ("end > 0", True), ("not end", False)], True) is not None:
+            chk.ok("C15.rangezero", a, "`bytes=-0` is handled before the suffix length is negated")
+        else:
+            chk.violation("C15.rangezero", a, "start = -end", "!(end == 0)",
+                          "`Range: bytes=-0` (the last 0 bytes) becomes slice(-0, None) == slice(0, None): the whole file is sent with 206 instead of 416; handlers that slice a body with request.http_range are affected too")
+    # ---- C15.listing: in follow-symlink mode the index is built from the path below the root -----------------------------------------------
+    rp = repo.func(MOD, "StaticResource._resolve_path_to_response")
+    for c, b in K.exprs(rp, "self._directory_as_html($P)"):
+        p = b["P"]
+        ds = norm.fn_defs(rp.node).defs.get(p.id, []) if isinstance(p, ast.Name) else []
+        follow = [(d, v) for d, v in ds if PC.has_lit(PC.pc(d), "self._break_symlink_sandbox", True) is not None]
+        if follow and all(not (isinstance(v, ast.Call) and norm.raw(v.func).endswith(".resolve")) for _d, v in follow):
+            chk.ok("C15.listing", c, "follow-symlink mode: the directory index is built from the unresolved path below the root (its entries are named relative to the root)")
+        else:
+            chk.violation("C15.listing", c, K.short(c, 60), "the normalised, unresolved path in follow-symlink mode",
+                          "with show_index and follow_symlinks, a directory behind a symlink that points outside the root is listed from its resolved path; _directory_as_html() calls relative_to(root) on it and the request ends in a 500 although files below that link are served")
+    # ---- C15.oserror: file-system errors while examining the path are client errors, not 500 ---------------------------------------------------
+    isd = [c for c, _b in K.exprs(rp, "file_path.is_dir()")]
+    for c in isd:
+        hs = {t for _t, h in K.enclosing_try_handlers(c) for t in PC.handler_types(h)}
+        if "OSError" in hs:
+            chk.ok("C15.oserror", c, "an OSError while examining the path (e.g. ENAMETOOLONG) is answered 404 / 403")
+        else:
+            chk.violation("C15.oserror", c, K.short(c), "except OSError: raise HTTPNotFound()", "is_dir() raises OSError for e.g. a path segment longer than the file system allows; only PermissionError is handled, the request ends in a 500")
